@@ -267,10 +267,18 @@ func writeInnerType(w *formatting.IndentedWriter, recordDef *dsl.RecordDefinitio
 
 func needsInnerType(node dsl.Node) bool {
 	result := false
+	// each referenced definition is examined once
+	visitedDefinitions := make(map[dsl.TypeDefinition]bool)
 	dsl.Visit(node, func(self dsl.Visitor, node dsl.Node) {
+		if result {
+			return
+		}
 		switch t := node.(type) {
 		case *dsl.SimpleType:
-			self.Visit(t.ResolvedDefinition)
+			if t.ResolvedDefinition != nil && !visitedDefinitions[t.ResolvedDefinition] {
+				visitedDefinitions[t.ResolvedDefinition] = true
+				self.Visit(t.ResolvedDefinition)
+			}
 			self.VisitChildren(node)
 		case *dsl.GeneralizedType:
 			if len(t.Cases) > 1 {
@@ -307,10 +315,18 @@ func needsInnerType(node dsl.Node) bool {
 
 func containsVlen(node dsl.Node) bool {
 	result := false
+	// each referenced definition is examined once
+	visitedDefinitions := make(map[dsl.TypeDefinition]bool)
 	dsl.Visit(node, func(self dsl.Visitor, node dsl.Node) {
+		if result {
+			return
+		}
 		switch t := node.(type) {
 		case *dsl.SimpleType:
-			self.Visit(t.ResolvedDefinition)
+			if t.ResolvedDefinition != nil && !visitedDefinitions[t.ResolvedDefinition] {
+				visitedDefinitions[t.ResolvedDefinition] = true
+				self.Visit(t.ResolvedDefinition)
+			}
 			self.VisitChildren(node)
 		case *dsl.GeneralizedType:
 			switch d := t.Dimensionality.(type) {
